@@ -218,7 +218,7 @@ def sequence(ops, final):
                 cur = _load(op)
             elif op == 'c':
                 before_rules = [tuple(str(x) for x in r[:4]) for r in cur[0]]
-                eng = merchant_utils._cached_engine
+                eng = getattr(merchant_utils, '_cached_engine', None)
                 before_eng = [(r.name, r.match_expr, r.category, sorted(r.tags)) for r in eng.rules] if eng is not None else None
                 _classify(cur, desc, amount, memo1)        # same transaction as the final one except for the memo field
                 ok = ok and [tuple(str(x) for x in r[:4]) for r in cur[0]] == before_rules
